@@ -59,7 +59,13 @@ var c01Extras = map[string]string{
 	"x_plain":       "just text",
 	"x_upper":       "{{ 'abc'|upper }}",
 	"x_sbx_inc":     "s[{% include 'x_plain' sandboxed %}|{% include 'x_upper' sandboxed %}|{% for i in [1,2] %}{% include 'x_upper' sandboxed %}{% endfor %}]",
-	"x_unlisted":    "{{ 'a-b'|replace('-', '+') }}{{ {'k': 1}|keys|join }}{{ [3,1]|merge([2])|join(',') }}",
+	// a sandboxed include whose template includes further templates, and plain includes nested two
+	// levels that end in filters the default policy does not list: the sandbox state of one render
+	// must not reach the contexts of the next
+	"x_sbx_nest":   "S[{% include 'x_nest_a' sandboxed %}]",
+	"x_nest_unl":   "N({% include 'x_nest_unl_b' %})",
+	"x_nest_unl_b": "M[{% include 'x_unlisted' %}{% include 'x_unlisted' with {'q': 1} %}]",
+	"x_unlisted":   "{{ 'a-b'|replace('-', '+') }}{{ {'k': 1}|keys|join }}{{ [3,1]|merge([2])|join(',') }}",
 	// the same struct type reached as a value and through a pointer, in separate templates: the
 	// order in which a process meets the two forms must not matter
 	"x_meth_v": "[{{ c01mv.Label }}|{{ c01mv.Twice }}|{{ c01mv.Name }}]",
@@ -70,13 +76,13 @@ var c01Extras = map[string]string{
 	"d/x_rel_inc":   "<{% include './x_rel_base' %}>",
 	// names that no loader has; they may be registered later in the history (by any route),
 	// after lookups of them have already failed or been ignored
-	"x_ign_inc":  "a{% include 'late_inc' ignore missing %}b{% include 'does_not_exist' ignore missing %}c",
+	"x_ign_inc": "a{% include 'late_inc' ignore missing %}b{% include 'does_not_exist' ignore missing %}c",
 	// includes nested two levels (rendered in bursts: per-render bookkeeping must start afresh)
 	"x_nest_a": "A({% include 'x_nest_b' %})",
 	"x_nest_b": "B[{% include 'x_plain' %}{% include 'x_upper' with {'k': 1} only %}]",
 	// the same pattern with and without the case-insensitive flag, in separate templates
-	"x_re_cs": "{{ 'Hello' matches '/hello/' ? 'yes' : 'no' }}{{ 'abc' matches '/B/' ? 'yes' : 'no' }}",
-	"x_re_ci": "{{ 'Hello' matches '/hello/i' ? 'yes' : 'no' }}{{ 'abc' matches '/B/i' ? 'yes' : 'no' }}",
+	"x_re_cs":    "{{ 'Hello' matches '/hello/' ? 'yes' : 'no' }}{{ 'abc' matches '/B/' ? 'yes' : 'no' }}",
+	"x_re_ci":    "{{ 'Hello' matches '/hello/i' ? 'yes' : 'no' }}{{ 'abc' matches '/B/i' ? 'yes' : 'no' }}",
 	"x_late_ext": "{% extends 'late_layout' %}{% block b %}late-child{% endblock %}",
 }
 
